@@ -13,6 +13,7 @@ op syntax (comma separated):
   cerr (error inside catch) | reload,o<t>,<n> (reload_object; create() does set_heart_beat(n)) | living (enable_commands)
   | burn (use up evaluation cost) | rp (replace_program by the inherited program without heart_beat) | mv,o<dest> (move_object into dest)
   tflags <n>                                MAIN_OPTION (timer_flags) = n
+  cotick o<k>:<op>;<op>... ...              call_out callbacks (delay 1) in the named objects, then a tick with TIMER_FLAG_CALLOUT
 o0 = blueprint /c11/obj (has heart_beat), o1 = blueprint /c11/nohb (no heart_beat function); both always loaded.
 -/
 import NV.Common.Proto
@@ -89,6 +90,8 @@ def render : Ev → String
   | .moved i d => s!"r mv {oid i} {oid d}"
   | .movedNone i d => s!"r mv {oid i} {oid d} !none"
   | .hookMoved i => s!"hookend {oid i} !moved"
+  | .coBegin o => s!"cobegin {oid o}"
+  | .coEnd o => s!"coend {oid o}"
   | .passLimit => "passlimit"
   | .cgAfter v => s!"cg {match v with | some p => oid p | none => "-"}"
   | .junk s => s
@@ -149,6 +152,8 @@ def parseEv (line : String) : Ev :=
     | ["r", "mv", i, d] => do some (.moved (← parseOid i) (← parseOid d))
     | ["r", "mv", i, d, "!none"] => do some (.movedNone (← parseOid i) (← parseOid d))
     | ["hookend", i, "!moved"] => do some (.hookMoved (← parseOid i))
+    | ["cobegin", o] => do some (.coBegin (← parseOid o))
+    | ["coend", o] => do some (.coEnd (← parseOid o))
     | ["passlimit"] => some .passLimit
     | ["cg", v] => if v == "-" then some (.cgAfter none) else (parseOid v).map (fun p => .cgAfter (some p))
     | _ => none
@@ -186,6 +191,17 @@ def parseLine (p : Parsed) (line : String) : Parsed :=
     | some k, some op => { p with cmds := Cmd.op k op :: p.cmds }
     | _, _ => { p with bad := line :: p.bad }
   | ["tick"] => { p with cmds := Cmd.tick :: p.cmds }
+  | "cotick" :: cbs =>
+    let parsed : List (Option (Nat × List Op)) := cbs.map (fun c =>
+      match c.splitOn ":" with
+      | [o, ops] =>
+        let ps := (ops.splitOn ";").map parseOp
+        match parseOid o with
+        | some k => if ps.all Option.isSome then some (k, ps.filterMap id) else none
+        | none => none
+      | _ => none)
+    if parsed.all Option.isSome then { p with cmds := Cmd.cotick (parsed.filterMap id) :: p.cmds }
+    else { p with bad := line :: p.bad }
   | ["tflags", n] =>
     match n.toNat? with
     | some k => { p with cmds := Cmd.tflags k :: p.cmds }
